@@ -2,6 +2,12 @@ package props
 
 import (
 	"fmt"
+	"go/constant"
+	"go/token"
+	"go/types"
+	"strings"
+
+	"elaverif/core"
 
 	"elaverif/ssau"
 
@@ -48,8 +54,70 @@ func init() {
 	register(&Check{ID: "C32", Title: "Frozen addresses can neither spend nor receive", Run: runC32})
 }
 
+// constVal returns the integer value of a package-level constant.
+func (c *Ctx) constVal(rel, name string) (int64, bool) {
+	obj := c.P.Object(rel, name)
+	k, ok := obj.(*types.Const)
+	if !c.R.Anchor("const "+rel+"."+name, ok) {
+		return 0, false
+	}
+	if v, exact := constant.Int64Val(constant.ToInt(k.Val())); exact {
+		return v, true
+	}
+	if u, exact := constant.Uint64Val(constant.ToInt(k.Val())); exact {
+		return int64(u), true
+	}
+	return 0, false
+}
+
+// nodeFunc: function belongs to the node binary proper (not tests/tools/benchmarks).
+func nodeFunc(f *ssa.Function) bool {
+	if f == nil || f.Pkg == nil {
+		return false
+	}
+	path := f.Pkg.Pkg.Path()
+	if !strings.HasPrefix(path, core.Mod) {
+		return false
+	}
+	return !core.IsTestOrTool(core.RelPath(path))
+}
+
+// fieldStores lists Store instructions writing field fname of struct type tname, grouped by (outermost named) function.
+func (c *Ctx) fieldStores(tname, fname string, onlyNode bool) map[*ssa.Function][]*ssa.Store {
+	out := map[*ssa.Function][]*ssa.Store{}
+	for f := range c.P.AllFuncs() {
+		if f.Pkg == nil && f.Parent() == nil {
+			continue
+		}
+		root := f
+		for root.Parent() != nil {
+			root = root.Parent()
+		}
+		if root.Pkg == nil || !strings.HasPrefix(root.Pkg.Pkg.Path(), core.Mod) {
+			continue
+		}
+		if onlyNode && !nodeFunc(root) {
+			continue
+		}
+		for _, b := range f.Blocks {
+			for _, in := range b.Instrs {
+				st, ok := in.(*ssa.Store)
+				if !ok {
+					continue
+				}
+				if ssau.IsFieldOf(st.Addr, tname, fname) {
+					out[root] = append(out[root], st)
+				}
+			}
+		}
+	}
+	return out
+}
+
 func runC31(c *Ctx) {
-	c.R.Rule("G1-policy", "in DefaultChecker.ContextCheck every success exit (including the SpecialContextCheck early exit) is reached only after checkTransactionCrossChainUTXO was called and its error tested, with arguments bound to (Transaction, references from GetTxReference, BlockHeight, Config.CrossChainUTXOFreezeHeight, Config.CrossChainUTXORestrictionHeight)")
+	c.R.Rule("G1-policy", "in DefaultChecker.ContextCheck every success exit (including the SpecialContextCheck early exit) is reached only after checkTransactionCrossChainUTXO was called and its error tested, with arguments bound to (Transaction, references from GetTxReference, BlockHeight, Config.CrossChainUTXOFreezeHeight, Config.CrossChainUTXORestrictionHeight); no transaction type overrides ContextCheck except the coinbase")
+	c.R.Rule("T-policy", "decision table: the branch structure of checkTransactionCrossChainUTXO (and hasCrossChainUTXO) is walked abstractly for every valuation of its atoms (height vs freeze/restriction heights, tx kind predicates, payload version, UTXO prefix) and the accept/reject outcome is compared with the policy stated by the property; an unknown atom is undecided")
+	c.R.Rule("K-config", "only the frozen writer set stores to Configuration.CrossChainUTXOFreezeHeight/RestrictionHeight; SetupConfig reaches its return only after enforceCrossChainUTXORestrictionHeights, and no configuration writer (loadConfigFile, screw.Bind, TestNet, RegNet, InstantBlock) is reachable after it; enforce assigns the MainNet constants on {\"\",mainnet,main} and the Disabled constant otherwise")
 	cc := c.fn(txpkg, "DefaultChecker", "ContextCheck")
 	if cc != nil {
 		pred := callPred(R{txpkg, "", "checkTransactionCrossChainUTXO"})
@@ -65,13 +133,411 @@ func runC31(c *Ctx) {
 			c.argIsField("G1-policy", "ContextCheck|arg4=RestrictionHeight", call, 4, "Configuration", "CrossChainUTXORestrictionHeight")
 		}
 	}
+	c.contextCheckOverrides("G1-policy")
+
+	// decision table
+	v0, ok0 := c.constVal("core/types/payload", "WithdrawFromSideChainVersion")
+	v1, ok1 := c.constVal("core/types/payload", "WithdrawFromSideChainVersionV1")
+	v2, ok2 := c.constVal("core/types/payload", "WithdrawFromSideChainVersionV2")
+	rv, ok3 := c.constVal("core/types/payload", "ReturnSideChainDepositCoinVersion")
+	cross, ok4 := c.constVal("core/contract", "PrefixCrossChain")
+	pol := c.fn(txpkg, "", "checkTransactionCrossChainUTXO")
+	has := c.fn(txpkg, "", "hasCrossChainUTXO")
+	if pol != nil && has != nil && ok0 && ok1 && ok2 && ok3 && ok4 {
+		syms := &Symbols{
+			Bool: func(v ssa.Value) (string, bool) {
+				for _, n := range []string{"hasCrossChainUTXO", "IsWithdrawFromSideChainTx", "IsReturnSideChainDepositCoinTx"} {
+					if methodCallNamed(v, n) {
+						return n, true
+					}
+				}
+				return "", false
+			},
+			Int: func(v ssa.Value) (string, bool) {
+				for _, n := range []string{"blockHeight", "freezeHeight", "restrictionHeight"} {
+					if paramNamed(v, n) {
+						return n, true
+					}
+				}
+				if methodCallNamed(v, "PayloadVersion") {
+					return "ver", true
+				}
+				if methodCallNamed(v, "GetPrefixType") {
+					return "prefix", true
+				}
+				return "", false
+			},
+		}
+		other := cross + 1
+		vers := map[int64]bool{v0: true, v1: true, v2: true, rv: true, 3: true, 7: true, 255: true}
+		var verList []int64
+		for k := range vers {
+			verList = append(verList, k)
+		}
+		envs := product([]string{"hasCrossChainUTXO", "IsWithdrawFromSideChainTx", "IsReturnSideChainDepositCoinTx"},
+			map[string][]int64{"blockHeight": {0, 1, 2, 3, 4}, "freezeHeight": {1, 3}, "restrictionHeight": {1, 3}, "ver": verList, "prefix": {cross, other}})
+		expect := func(e Env) bool {
+			h := e.I["blockHeight"]
+			if h < e.I["freezeHeight"] || !e.B["hasCrossChainUTXO"] {
+				return true // policy not active / nothing cross-chain spent
+			}
+			if h < e.I["restrictionHeight"] {
+				return false // freeze window
+			}
+			ver := e.I["ver"]
+			if e.B["IsWithdrawFromSideChainTx"] {
+				return ver == v0 || ver == v1 || ver == v2
+			}
+			if !e.B["IsReturnSideChainDepositCoinTx"] {
+				return false
+			}
+			if ver != rv {
+				return false
+			}
+			return e.I["prefix"] == cross // spends only cross-chain UTXOs
+		}
+		c.Decision("T-policy", "checkTransactionCrossChainUTXO|table", pol, syms, envs, expect, G1Opt{})
+		c.Decision("T-policy", "hasCrossChainUTXO|table", has, syms, product(nil, map[string][]int64{"prefix": {cross, other}}),
+			func(e Env) bool { return e.I["prefix"] == cross }, G1Opt{BoolSuccess: true})
+		// the call inside the policy function must pass the references parameter
+		for _, call := range ssau.CallsIn(pol, callPred(R{txpkg, "", "hasCrossChainUTXO"})) {
+			c.R.Check("T-policy", "checkTransactionCrossChainUTXO|hasCrossChainUTXO(references)", paramNamed(call.Common().Args[0], "references"), c.posOf(call), "hasCrossChainUTXO must be applied to the references parameter")
+		}
+		c.rangesOverParam("T-policy", "checkTransactionCrossChainUTXO|loop over references", pol, "references")
+		c.rangesOverParam("T-policy", "hasCrossChainUTXO|loop over references", has, "references")
+	}
+	c.configEnforce("K-config", "enforceCrossChainUTXORestrictionHeights", []string{"CrossChainUTXOFreezeHeight", "CrossChainUTXORestrictionHeight"})
+}
+
+// rangesOverParam: every range loop (map iteration) of fn iterates the named parameter.
+func (c *Ctx) rangesOverParam(rule, key string, fn *ssa.Function, param string) {
+	n := 0
+	ok := true
+	for _, b := range fn.Blocks {
+		for _, in := range b.Instrs {
+			if r, isr := in.(*ssa.Range); isr {
+				n++
+				if !paramNamed(r.X, param) {
+					ok = false
+				}
+			}
+		}
+	}
+	c.R.Check(rule, key, ok && n > 0, c.pos(fn.Pos()), fmt.Sprintf("%s: %d range loop(s), all over parameter %q: %v", fname(fn), n, param, ok))
+}
+
+// contextCheckOverrides: the only concrete transaction type overriding
+// ContextCheck is the coinbase (which spends nothing).
+func (c *Ctx) contextCheckOverrides(rule string) {
+	pk := c.P.Pkg(txpkg)
+	if pk == nil {
+		return
+	}
+	var over []string
+	sc := pk.Types.Scope()
+	for _, name := range sc.Names() {
+		tn, ok := sc.Lookup(name).(*types.TypeName)
+		if !ok {
+			continue
+		}
+		if f := c.P.Func(txpkg, name, "ContextCheck"); f != nil {
+			over = append(over, tn.Name())
+		}
+	}
+	okk := true
+	for _, o := range over {
+		if o != "DefaultChecker" && o != "CoinBaseTransaction" {
+			okk = false
+		}
+	}
+	c.R.Check(rule, "ContextCheck|overrides", okk && len(over) >= 1, "", fmt.Sprintf("types declaring ContextCheck: %v (allowed: DefaultChecker, CoinBaseTransaction)", over))
+}
+
+// configEnforce checks the SetupConfig ordering and the enforce function's assignments.
+func (c *Ctx) configEnforce(rule, enforceName string, fields []string) {
+	const spkg = "common/config/settings"
+	setup := c.fn(spkg, "Settings", "SetupConfig")
+	enf := c.fn(spkg, "", enforceName)
+	if setup == nil || enf == nil {
+		return
+	}
+	pred := callPred(R{spkg, "", enforceName})
+	calls := ssau.CallsIn(setup, pred)
+	// must-pass (plain): no return of SetupConfig without the enforce call
+	cut := ssau.NewCut()
+	for _, ci := range calls {
+		cut.AddInstr(ci)
+	}
+	r := ssau.ReachFromEntry(setup, cut)
+	bypass := ""
+	for _, ret := range ssau.Returns(setup) {
+		if r.Instr(ret) {
+			bypass = c.posOf(ret)
+		}
+	}
+	c.R.Check(rule, "SetupConfig|must-pass "+enforceName, len(calls) > 0 && bypass == "", c.pos(setup.Pos()), fmt.Sprintf("SetupConfig returns only after %s (%d call(s)); bypassing return: %q", enforceName, len(calls), bypass))
+	// nothing that rewrites the configuration after the enforce call
+	writers := map[string]bool{"loadConfigFile": true, "Bind": true, "TestNet": true, "RegNet": true, "InstantBlock": true, "Unmarshal": true}
+	for _, ci := range calls {
+		ra := ssau.ReachAfter(setup, ci, nil)
+		bad := ""
+		for _, b := range setup.Blocks {
+			for _, in := range b.Instrs {
+				if cc, ok := in.(ssa.CallInstruction); ok && in != ssa.Instruction(ci) && ra.Instr(in) {
+					if o := ssau.CalleeObj(cc.Common()); o != nil && writers[o.Name()] {
+						bad = o.Name() + " at " + c.posOf(in)
+					}
+				}
+			}
+		}
+		c.R.Check(rule, "SetupConfig|no config writer after "+enforceName, bad == "", c.posOf(ci), "configuration writers reachable after the enforce call: "+bad)
+		// the enforced object is the one that is sterilized and returned
+		argOK := ssau.IsFieldOf(ssau.Unwrap(ci.Common().Args[0]), "Config", "Configuration")
+		c.R.Check(rule, "SetupConfig|"+enforceName+" arg", argOK, c.posOf(ci), "argument must be conf.Configuration")
+		// Sterilize must come after enforce and its receiver must be the same object
+		st := ssau.CallsIn(setup, callPred(R{"common/config", "Configuration", "Sterilize"}))
+		after := len(st) > 0
+		for _, s := range st {
+			if !ra.Instr(s) {
+				after = false
+			}
+		}
+		c.R.Check(rule, "SetupConfig|Sterilize after "+enforceName, after, c.posOf(ci), "Sterilize (which returns the final configuration) must run after the enforce call")
+	}
+	// who writes the fields
+	allowed := map[string]bool{
+		"common/config/settings." + enforceName:  true, // the enforcement itself
+		"(*common/config.Configuration).TestNet": true, // network presets, applied before enforcement
+		"(*common/config.Configuration).RegNet":  true,
+		"common/config.init":                     true, // DefaultParams literal
+		"common/config.GetDefaultParams":         true, // mainnet defaults literal
+	}
+	for _, f := range fields {
+		ws := c.fieldStores("Configuration", f, true)
+		var bad []string
+		n := 0
+		for fn, sts := range ws {
+			n += len(sts)
+			if !allowed[fname(fn)] {
+				bad = append(bad, fname(fn)+" at "+c.posOf(sts[0]))
+			}
+		}
+		c.R.Check(rule, "writers|Configuration."+f, len(bad) == 0 && n > 0, "", fmt.Sprintf("%d stores; writers outside the allowed set: %v", n, bad))
+	}
+	c.enforceAssignments(rule, enf, fields)
+}
+
+// enforceAssignments walks the enforce function for each network name and
+// checks which constants get stored.
+func (c *Ctx) enforceAssignments(rule string, enf *ssa.Function, fields []string) {
+	syms := &Symbols{Str: func(v ssa.Value) (string, bool) {
+		if call, ok := v.(*ssa.Call); ok {
+			if f := call.Call.StaticCallee(); f != nil && f.String() == "strings.ToLower" {
+				if ssau.IsFieldOf(call.Call.Args[0], "Configuration", "ActiveNet") {
+					return "net", true
+				}
+			}
+		}
+		return "", false
+	}}
+	mainFreeze, _ := c.constVal("common/config", "MainNetCrossChainUTXOFreezeHeight")
+	mainRestr, _ := c.constVal("common/config", "MainNetCrossChainUTXORestrictionHeight")
+	disabled, _ := c.constVal("common/config", "DisabledCrossChainUTXORestrictionHeight")
+	for _, net := range []string{"", "mainnet", "main", "testnet", "test", "regnet", "regtest", "reg", "somethingelse"} {
+		env := Env{S: map[string]string{"net": net}}
+		res := ssau.AbsWalk(enf, ssau.AbsEnvFunc(func(i *ssa.If, visit int) (bool, bool) {
+			return syms.evalCond(i.Cond, env, visit, i.Block().Comment)
+		}))
+		key := fmt.Sprintf("%s|net=%q", enf.Name(), net)
+		if res.Unknown != nil || res.Ret == nil {
+			pos := c.pos(enf.Pos())
+			if res.Unknown != nil {
+				pos = c.posOf(res.Unknown)
+			}
+			c.R.Undecided(rule, key, pos, "cannot evaluate the network switch: condition not of the form strings.ToLower(cfg.ActiveNet) == \"literal\"")
+			continue
+		}
+		stored := map[string]ssa.Value{}
+		for _, bi := range res.Trace {
+			for _, in := range enf.Blocks[bi].Instrs {
+				if st, ok := in.(*ssa.Store); ok {
+					if fa, ok := st.Addr.(*ssa.FieldAddr); ok {
+						pt := fa.X.Type().Underlying().(*types.Pointer)
+						stt := pt.Elem().Underlying().(*types.Struct)
+						stored[stt.Field(fa.Field).Name()] = st.Val
+					}
+				}
+			}
+		}
+		isMain := net == "" || net == "mainnet" || net == "main"
+		for _, f := range fields {
+			v := stored[f]
+			ok := false
+			detail := ""
+			switch f {
+			case "CrossChainUTXOFreezeHeight", "CrossChainUTXORestrictionHeight":
+				want := disabled
+				if isMain {
+					want = mainFreeze
+					if f == "CrossChainUTXORestrictionHeight" {
+						want = mainRestr
+					}
+				}
+				if cst, isC := v.(*ssa.Const); isC {
+					got, _ := constInt(cst)
+					if cst.Value != nil && cst.Value.Kind() == constant.Int {
+						if u, exact := constant.Uint64Val(cst.Value); exact {
+							got = int64(u)
+						}
+					}
+					ok = got == want
+					detail = fmt.Sprintf("stored %d, required %d", got, want)
+				} else {
+					detail = fmt.Sprintf("stored value %v is not a constant", v)
+				}
+			case "FrozenAddresses":
+				if isMain {
+					ok = v != nil && methodCallNamed(v, "MainNetFrozenAddresses")
+					detail = "mainnet must assign config.MainNetFrozenAddresses()"
+				} else {
+					ok = v == nil
+					detail = "other networks keep their configured list (no store expected)"
+				}
+			}
+			c.R.Check(rule, key+"|"+f, ok, c.pos(enf.Pos()), detail)
+		}
+	}
+	_ = token.ADD
 }
 
 func runC32(c *Ctx) {
 	c.R.Rule("G1-frozen", "in DefaultChecker.ContextCheck every success exit (including the early exit) passes a checked call of checkFrozenAddresses bound to (Transaction, references, BlockHeight, Config.FrozenAddresses)")
+	c.R.Rule("T-frozen", "decision table of checkFrozenAddresses: for a frozen entry, accept iff the entry has no program hash, or height < DisableStartHeight, or neither a spent output nor a new output equals the frozen hash; the loops range over the frozenAddresses parameter, the references parameter and txn.Outputs()")
+	c.R.Rule("K-config", "SetupConfig passes enforceFrozenAddresses before returning and before Sterilize, nothing rewrites the configuration after it; on mainnet names the list is MainNetFrozenAddresses(); Sterilize resolves ProgramHash for every entry; writers of Configuration.FrozenAddresses are the frozen set")
 	cc := c.fn(txpkg, "DefaultChecker", "ContextCheck")
+	pred := callPred(R{txpkg, "", "checkFrozenAddresses"})
 	if cc != nil {
-		pred := callPred(R{txpkg, "", "checkFrozenAddresses"})
 		c.G1s("G1-frozen", "ContextCheck|checkFrozenAddresses", cc, "checkFrozenAddresses", pred, G1Opt{})
+		for _, call := range ssau.CallsIn(cc, pred) {
+			c.argIsField("G1-frozen", "ContextCheck|arg0=Transaction", call, 0, "TransactionParameters", "Transaction")
+			c.argIsCallResult("G1-frozen", "ContextCheck|arg1=GetTxReference", call, 1, "GetTxReference", func(cm *ssa.CallCommon) bool {
+				o := ssau.CalleeObj(cm)
+				return o != nil && o.Name() == "GetTxReference"
+			})
+			c.argIsField("G1-frozen", "ContextCheck|arg2=BlockHeight", call, 2, "TransactionParameters", "BlockHeight")
+			c.argIsField("G1-frozen", "ContextCheck|arg3=FrozenAddresses", call, 3, "Configuration", "FrozenAddresses")
+		}
+	}
+	c.contextCheckOverrides("G1-frozen")
+	fz := c.fn(txpkg, "", "checkFrozenAddresses")
+	if fz != nil {
+		fromOutputs := func(v ssa.Value) bool {
+			return ssau.DependsOn(v, func(x ssa.Value) bool { return methodCallNamed(x, "Outputs") })
+		}
+		fromRefs := func(v ssa.Value) bool {
+			return ssau.DependsOn(v, func(x ssa.Value) bool {
+				if n, ok := x.(*ssa.Next); ok {
+					if rg, ok := n.Iter.(*ssa.Range); ok {
+						return paramNamed(rg.X, "references")
+					}
+				}
+				return false
+			})
+		}
+		syms := &Symbols{
+			Bool: func(v ssa.Value) (string, bool) {
+				call, ok := v.(*ssa.Call)
+				if !ok || !methodCallNamed(v, "IsEqual") {
+					return "", false
+				}
+				// receiver (arg 0 for static method call) is the candidate hash, arg 1 the frozen hash
+				args := call.Call.Args
+				if len(args) != 2 {
+					return "", false
+				}
+				frozenSide := func(x ssa.Value) bool {
+					return ssau.DependsOn(x, func(y ssa.Value) bool { return ssau.IsFieldOf(y, "FrozenAddress", "ProgramHash") })
+				}
+				var cand ssa.Value
+				switch {
+				case frozenSide(args[1]) && !frozenSide(args[0]):
+					cand = args[0]
+				case frozenSide(args[0]) && !frozenSide(args[1]):
+					cand = args[1]
+				default:
+					return "", false
+				}
+				if fromOutputs(cand) {
+					return "outEq", true
+				}
+				if fromRefs(cand) {
+					return "refEq", true
+				}
+				return "", false
+			},
+			Nil: func(v ssa.Value) (string, bool) {
+				if ssau.IsFieldOf(v, "FrozenAddress", "ProgramHash") {
+					return "hashNil", true
+				}
+				return "", false
+			},
+			Int: func(v ssa.Value) (string, bool) {
+				if paramNamed(v, "blockHeight") {
+					return "h", true
+				}
+				if ssau.IsFieldOf(v, "FrozenAddress", "DisableStartHeight") {
+					return "start", true
+				}
+				return "", false
+			},
+		}
+		envs := product([]string{"hashNil", "outEq", "refEq"}, map[string][]int64{"h": {0, 1, 2}, "start": {1}})
+		c.Decision("T-frozen", "checkFrozenAddresses|table", fz, syms, envs, func(e Env) bool {
+			if e.B["hashNil"] || e.I["h"] < e.I["start"] {
+				return true
+			}
+			return !e.B["outEq"] && !e.B["refEq"]
+		}, G1Opt{})
+		// loop domains
+		nRange, okRefs := 0, false
+		for _, b := range fz.Blocks {
+			for _, in := range b.Instrs {
+				if r, isr := in.(*ssa.Range); isr {
+					nRange++
+					if paramNamed(r.X, "references") {
+						okRefs = true
+					}
+				}
+			}
+		}
+		c.R.Check("T-frozen", "checkFrozenAddresses|ranges references", okRefs && nRange == 1, c.pos(fz.Pos()), "exactly one map range, over the references parameter")
+		// the outer slice loop is over the frozenAddresses parameter: its length bound
+		okOuter := false
+		for _, b := range fz.Blocks {
+			for _, in := range b.Instrs {
+				if call, ok := in.(*ssa.Call); ok {
+					if bi, ok := call.Call.Value.(*ssa.Builtin); ok && bi.Name() == "len" && paramNamed(call.Call.Args[0], "frozenAddresses") {
+						okOuter = true
+					}
+				}
+			}
+		}
+		c.R.Check("T-frozen", "checkFrozenAddresses|ranges frozenAddresses", okOuter, c.pos(fz.Pos()), "outer loop bound is len(frozenAddresses)")
+	}
+	c.configEnforce("K-config", "enforceFrozenAddresses", []string{"FrozenAddresses"})
+	// Sterilize resolves program hashes
+	ster := c.fn("common/config", "Configuration", "Sterilize")
+	if ster != nil {
+		n := 0
+		for _, b := range ster.Blocks {
+			for _, in := range b.Instrs {
+				if st, ok := in.(*ssa.Store); ok && ssau.IsFieldOf(st.Addr, "FrozenAddress", "ProgramHash") {
+					if methodCallNamed(st.Val, "Uint168FromAddress") || ssau.DependsOn(st.Val, func(x ssa.Value) bool { return methodCallNamed(x, "Uint168FromAddress") }) {
+						n++
+					}
+				}
+			}
+		}
+		c.R.Check("K-config", "Sterilize|FrozenAddress.ProgramHash", n > 0, c.pos(ster.Pos()), "Sterilize stores Uint168FromAddress(Address) into FrozenAddress.ProgramHash")
 	}
 }
